@@ -26,20 +26,25 @@ type c04 struct{ fw.Base }
 func init() { fw.Register(c04{}) }
 
 func (c04) ID() string { return "C04" }
-func (c04) NumCases(tier string) int {
+
+// numGenerated: the generated cases come first; directed families are appended after them so that
+// the index -> case mapping of the generated cases (which the pinned witnesses of the known
+// findings refer to) never moves.
+func numGenerated(tier string) int {
 	if tier == fw.Thorough {
 		return 50000
 	}
 	return 3000
 }
+func (c04) NumCases(tier string) int { return numGenerated(tier) + numListPairCases() }
 func (c04) Rule() string {
-	return "case = generated schema × one valid-by-construction operation (self-checked with gqlparser, variables coercible by the reference coercer) + up to 4 copies of it carrying exactly one rule-targeted mutation (" + fmt.Sprint(len(gen.MutationOperators)) + " operators, one per spec rule, rotated over case indexes so every operator is applied; sites: root / nested / inside fragments / under removed selections). Ground truth: valid by construction resp. invalid by design, judged only when gqlparser's validator agrees (disagreement = inconclusive, counted per operator). Two admission sequences: ExecutionEngine.Execute (real engine, observed at the request-option boundary) and the README tutorial (NewWithOpts(ExtractVariables, InlineFragmentSpreads, RemoveFragmentDefinitions, RemoveNotMatchingOperationDefinitions).NormalizeNamedOperation, then DefaultOperationValidator().Validate). Non-trivial = at least one mutant judged; distinct by hash of (schema, operation, mutants)."
+	return "case = generated schema × one valid-by-construction operation (self-checked with gqlparser, variables coercible by the reference coercer) + up to 4 copies of it carrying exactly one rule-targeted mutation (" + fmt.Sprint(len(gen.MutationOperators)) + " operators, one per spec rule, rotated over case indexes so every operator is applied; sites: root / nested / inside fragments / under removed selections). Ground truth: valid by construction resp. invalid by design, judged only when gqlparser's validator agrees (disagreement = inconclusive, counted per operator). Two admission sequences: ExecutionEngine.Execute (real engine, observed at the request-option boundary) and the README tutorial (NewWithOpts(ExtractVariables, InlineFragmentSpreads, RemoveFragmentDefinitions, RemoveNotMatchingOperationDefinitions).NormalizeNamedOperation, then DefaultOperationValidator().Validate). Non-trivial = at least one mutant judged; distinct by hash of (schema, operation, mutants). Every generated case additionally carries " + fmt.Sprint(typeDirDraws) + " mutants of the operator " + gen.OperatorUndefinedDirectiveNamedLikeType + " (own PRNG stream: `@<TypeName>` without arguments, TypeName = a type of the schema incl. built-in scalars that is no directive, at a drawn location: field / inline fragment / fragment spread / fragment definition / operation; sites that survive normalisation preferred). Appended after the generated cases: the directed family listpair, " + fmt.Sprint(numListPairCases()) + " cases in both tiers = 6 named types × every ordered pair of the 14 list/non-null shapes of depth ≤ 2; each literal legal at both positions gives up to three valid operations (same literal at two positions, at three, second position inside a fragment) that all three admission sequences must admit (these operations have neither variables nor directives, so the README sequence and Request.Normalize + Request.ValidateForSchema — which validate AFTER variable extraction, unlike the engine — are judged on them, not only observed)."
 }
 func (c04) Assumptions() []string {
 	return []string{"gqlparser's validator (graphql-js port) is correct where it agrees with the construction", "a refusal of a valid operation whose message is a variables-validation message belongs to C06 and is only counted here", "default validator options", "the README tutorial sequence is observed (counters) but not judged: it contains neither unused-variable removal nor variable-value validation, so by construction it refuses valid operations whose variables are only used in evaluated @skip/@include and cannot see literal values after extraction; the judged sequence is ExecutionEngine.Execute"}
 }
 func (c04) RequiredCounters(string) []string {
-	return []string{"valid_judged", "mutants_judged", "engine_refused_invalid", "engine_admitted_valid", "tutorial_refused_invalid"}
+	return []string{"valid_judged", "mutants_judged", "engine_refused_invalid", "engine_admitted_valid", "tutorial_refused_invalid", "typedir_mutants_judged", "typedir_mutants_visible_to_validator", "typedir_engine_refused_invalid", "listpair_operations_judged", "listpair_operations_with_different_types", "listpair_engine_admitted_valid", "listpair_request_admitted_valid", "listpair_tutorial_admitted_valid"}
 }
 
 func varsJSON(vals map[string]*gen.Val) []byte {
@@ -120,7 +125,13 @@ func classifyRefusal(msg string) string {
 	return "other"
 }
 
+// typeDirDraws: mutants of the operator undefined-directive-named-like-a-type per generated case.
+const typeDirDraws = 2
+
 func (p c04) Run(c *fw.Ctx, idx int) fw.Result {
+	if k := idx - numGenerated(c.Tier); k >= 0 {
+		return p.runListPair(k)
+	}
 	res := fw.Result{}
 	r := c.Rng(idx, "c04")
 	sp := gen.DefaultProfile(r)
@@ -284,8 +295,61 @@ func (p c04) Run(c *fw.Ctx, idx int) fw.Result {
 			prev = q
 		}
 	}
+	// ---- an undefined directive whose name is the name of a TYPE of the schema (types and directives
+	// live in one name index of the schema document). Own PRNG stream, after everything else, so
+	// that the generated case and its rotated mutants are what they were before this sub-check existed.
+	var typeDirTexts []string
+	{
+		tr := c.Rng(idx, "c04-typedir")
+		for k := 0; k < typeDirDraws; k++ {
+			md, m, ok := gen.MutateUndefinedDirectiveNamedLikeType(tr, schema, doc, opName, coerced)
+			if !ok {
+				res.Count("typedir_not_applicable", 1)
+				continue
+			}
+			mtext := md.String()
+			typeDirTexts = append(typeDirTexts, mtext)
+			// the engine's normalisation inlines every fragment spread and then deletes ALL fragment
+			// definitions: what is written on a definition itself (its directives) never reaches the
+			// validator, exactly like a construct under a removed selection (cf. duplicate-directive in gen)
+			erased := m.UnderRemoved || m.Site == "fragment-definition"
+			mdetail := detail(map[string]any{"mutant": mtext, "operator": m.Operator, "designed_to_break": m.Rule, "site": m.Site, "erased_by_normalisation": erased})
+			fw.SetContext(mdetail)
+			_, gerrs := ss.LoadQuery(mtext)
+			if gerrs != nil && strings.Contains(gerrs.Error(), rig.GqlparserPanic) {
+				res.Count("oracle_unavailable_gqlparser_panic", 1)
+				continue
+			}
+			if gerrs == nil || !strings.Contains(gerrs.Error(), "Unknown directive") {
+				res.Count("oracle_disagreement", 1)
+				res.Count("oracle_disagreement_"+m.Operator, 1)
+				continue
+			}
+			res.Count("typedir_mutants_judged", 1)
+			res.Count("typedir_judged_at_"+m.Site, 1)
+			res.Observe("typedir_sites", m.Site)
+			if erased {
+				res.Count("typedir_mutants_erased_by_normalisation", 1)
+			} else {
+				res.Count("typedir_mutants_visible_to_validator", 1)
+			}
+			if ma := eng.Admit(mtext, opName, vars); ma.Stage == "" {
+				res.Violate("accepts-invalid", "ExecutionEngine.Execute admits an operation that violates "+m.Rule+" ("+m.Operator+")", map[string]string{"sequence": "engine", "operator": m.Operator, "rule": m.Rule, "erased_by_normalisation": fmt.Sprint(erased), "directive_location": m.Site}, mdetail)
+			} else {
+				res.Count("typedir_engine_refused_invalid", 1)
+			}
+			// the README sequence is observed only (first draw; see Assumptions)
+			if k == 0 {
+				if ok, _, _ := tutorialAdmit(ss.Repo, mtext, opName, vars); ok {
+					res.Count("typedir_tutorial_admitted_invalid", 1)
+				} else {
+					res.Count("typedir_tutorial_refused_invalid", 1)
+				}
+			}
+		}
+	}
 	res.Key = fw.HashKey(sdl, text, mutTexts)
 	res.Nontrivial = len(mutTexts) > 0
-	res.Sample = map[string]any{"operation": text, "variables": string(vars), "mutants": mutTexts}
+	res.Sample = map[string]any{"operation": text, "variables": string(vars), "mutants": mutTexts, "undefined_directive_named_like_a_type": typeDirTexts}
 	return res
 }
